@@ -17,7 +17,7 @@ Print Assumptions C10_reference_determines_counter.
    subscribers and names) the references handed out by the creates are pairwise
    different - even without the SUPI prefix. *)
 Theorem C10_unique : forall rsize usize ops w,
-  0 <= w_lrsn w -> w_lrsn w + Z.of_nat (length ops) < 2 ^ 64 ->
+  0 <= w_lrsn w -> w_lrsn w + span ops < 2 ^ 64 ->   (* span: one per request, n per Elapse n; the 64-bit counter does not wrap *)
   NoDup (map fst (created rsize usize w ops)).
 Proof. exact references_unique. Qed.
 Print Assumptions C10_unique.
